@@ -136,6 +136,24 @@ def long_spellings():
     return items
 
 
+def many_variants():
+    """63 / 64 / 65 / 130 variants (bit masks, jump tables): every one parses from its own spelling only"""
+    items = []
+    for n in (63, 64, 65, 130):
+        vs = []
+        for i in range(n):
+            v = Variant("Word%dEnd" % i, "unit" if i % 5 else "tuple", [] if i % 5 else [Field("u8")])
+            if i % 7 == 3:
+                v.metas = [ser("w%d" % i), ser("W-%d" % i)]
+            if i % 11 == 5:
+                v.metas = v.metas + [aci(True, explicit=False)]
+            if i % 13 == 6:
+                v.metas = v.metas + [DISABLED]
+            vs.append(v)
+        items.append(Item("E", vs, metas=[EM("sall", "kebab-case")] if n % 2 else []))
+    return items
+
+
 def crate_configs(tier):
     return [{"name": ID.lower()}, {"name": ID.lower() + "probe", "kind": "genprobe"}]
 
@@ -150,7 +168,7 @@ probe_command = S.struct_probe_command
 def build_corpus(tier, rng):
     c = Corpus(ID)
     thorough = tier == "thorough"
-    cands = [("regression", it) for it in regression()] + [("systematic", it) for it in systematic(rng)] + [("non-ascii-ident", it) for it in nonascii()] + [("long-spelling", it) for it in long_spellings() if not any(m.kind == "phf" for m in it.metas)]
+    cands = [("regression", it) for it in regression()] + [("systematic", it) for it in systematic(rng)] + [("non-ascii-ident", it) for it in nonascii()] + [("long-spelling", it) for it in long_spellings() if not any(m.kind == "phf" for m in it.metas)] + [("many-variants", it) for it in many_variants()]
     for _ in range(1400 if thorough else 110):
         cands.append(("random", G.string_enum(rng)))
     infos = G.classify(ID, [it for _, it in cands])
